@@ -108,6 +108,8 @@ def check_pinned(ctx, f, call, var):
     starts = [cfg.entry] if var in defs.params else []
     starts += [s for s in cfg.stmts() if defines(s) and not is_pin_def(s)]
     if not starts and var not in defs.params:
+        if any(is_pin_def(s) for s in cfg.stmts()):
+            return None  # every definition of the variable is a pinning one
         # never defined locally (closure / global): cannot be shown pinned
         return [f"{var} has no local definition"]
     for st in starts:
